@@ -45,6 +45,8 @@ type Engine struct {
 	uninterps  map[string]uninterp
 	regexCache map[string]string
 	quickQueries int
+	ghostDecls map[string]string // ghost name -> type text
+	ghostPkg   map[string]string
 }
 
 var targetPkgs = []string{".", "./internal/option", "./internal/sliceiterator", "./internal/help", "./dag", "./text"}
@@ -144,6 +146,14 @@ func loadEngine(repo string) (*Engine, error) {
 						return nil, fmt.Errorf("%s: duplicate spec func %s", f.Where, f.Name)
 					}
 					e.specFuncs[f.Name] = f
+				}
+				for g, t := range sf.Ghosts {
+					if e.ghostDecls == nil {
+						e.ghostDecls = map[string]string{}
+						e.ghostPkg = map[string]string{}
+					}
+					e.ghostDecls[g] = t
+					e.ghostPkg[g] = name
 				}
 				e.axioms = append(e.axioms, sf.Axioms...)
 				e.lemmas = append(e.lemmas, sf.Lemmas...)
